@@ -2,6 +2,7 @@
 import z3
 from pyvc import z as Z
 from pyvc.values import *   # noqa
+from pyvc.state import RaiseSig, ContractError
 from pyvc.engine import Contract, OpaqueClass
 from pyvc.loops import LoopSpec
 from pyvc import models as M
@@ -175,6 +176,20 @@ def register(E):
         # ghost: whether f takes **kwargs (documented as unsupported; kept symbolic)
         E_.specns['f_varkw'] = VBool(VARKW(f.z))
 
+    def inject_model(I, ctx, f, injectables):
+        # call-site summary: the function is called (any result, any exception); the keyword
+        # algebra proved on inject's own body is what C01/C02 compose with.  The call is recorded
+        # (function, snapshot of the mapping, outcome) so that callers can be specified over it.
+        ev = ['inject', f, E.freeze(ctx, I.resolve(ctx, injectables)), None]
+        ctx.trace.append(ev)
+        try:
+            r = E.unknown_outcome(ctx, 'inject', None)
+        except RaiseSig as rs:
+            ev[3] = ('exc', rs.exc)
+            raise
+        ev[3] = ('ret', r)
+        return r
+
     E.add_contract(Contract(
         'clastic.sinter.inject',
         params={'f': TFunc, 'injectables': TDict(TStr, TObj())},
@@ -183,5 +198,38 @@ def register(E):
         returns=TObj(),
         # at call sites: the function is called (any result, any exception); the keyword algebra
         # proved above is what C01/C02 use
-        model=lambda I, ctx, f, injectables: E.unknown_outcome(ctx, 'inject', None),
+        model=inject_model,
         prop=['C01', 'C02']))
+
+    def _inj(ctx, i):
+        evs = [e for e in ctx.trace if e[0] == 'inject']
+        k = Z.simp(TInt.to_z(i)).as_long()
+        if k is None or k >= len(evs):
+            raise ContractError('inject call %r does not exist on this path' % (k,))
+        return evs[k]
+
+    @E.spec('ninject')
+    def ninject(I, ctx):
+        return VInt(len([e for e in ctx.trace if e[0] == 'inject']))
+
+    @E.spec('inject_fn')
+    def inject_fn(I, ctx, i):
+        return _inj(ctx, i)[1]
+
+    @E.spec('inject_map')
+    def inject_map(I, ctx, i):
+        return _inj(ctx, i)[2]
+
+    @E.spec('inject_returned')
+    def inject_returned(I, ctx, i, result):
+        ev = _inj(ctx, i)
+        if ev[3] is None or ev[3][0] != 'ret':
+            return VBool(False)
+        return VBool(I.identical(ctx, ev[3][1], result))
+
+    @E.spec('inject_raised')
+    def inject_raised(I, ctx, i, exc):
+        ev = _inj(ctx, i)
+        if ev[3] is None or ev[3][0] != 'exc':
+            return VBool(False)
+        return VBool(I.identical(ctx, ev[3][1], exc))
